@@ -575,7 +575,12 @@ func parse(expr string, namespaces map[string]string) node {
 	r.nextChar()
 	r.nextItem()
 	p := &parser{r: r, namespaces: namespaces}
-	return p.parseExpression(nil)
+	n := p.parseExpression(nil)
+	// The whole input has to be one expression: whatever is left over (a name
+	// after a literal, a stray bracket, the rest of a mistyped string) used to
+	// be dropped silently.
+	checkItem(r, itemEOF)
+	return n
 }
 
 // rootNode holds a top-level node of tree.
